@@ -22,6 +22,11 @@ type Scenario struct {
 	Quick  int // preemption bound in the quick tier (-1: not run)
 	Thor   int // preemption bound in the thorough tier
 	Desc   string
+	// MustSee: an observation containing this string must occur in at least one
+	// execution (non-vacuity / "a schedule with both occupied is found").
+	MustSee string
+	QuickShards, ThorShards int
+	FreeQuick, FreeThor     int // free-choice bound per tier (0 = default 3; use -1 for "0")
 	// New returns the body and the oracle for one execution.
 	Make func() (body func(), check func(e *vsched.Exec) (string, *vsched.Violation))
 }
@@ -73,11 +78,24 @@ func main() {
 		type item struct {
 			Prop, Name, Desc string
 			Quick, Thor      int
+			QuickShards, ThorShards int
+			FreeQuick, FreeThor     int
 		}
 		var out []item
 		for _, s := range scenarios {
 			if *prop == "" || s.Prop == *prop {
-				out = append(out, item{s.Prop, s.Name, s.Desc, s.Quick, s.Thor})
+				fq, ft := s.FreeQuick, s.FreeThor
+				if fq == 0 {
+					fq = 3
+				} else if fq < 0 {
+					fq = 0
+				}
+				if ft == 0 {
+					ft = 3
+				} else if ft < 0 {
+					ft = 0
+				}
+				out = append(out, item{s.Prop, s.Name, s.Desc, s.Quick, s.Thor, s.QuickShards, s.ThorShards, fq, ft})
 			}
 		}
 		json.NewEncoder(os.Stdout).Encode(out)
@@ -144,6 +162,18 @@ func main() {
 		x.Deadline = start.Add(time.Duration(*budget * float64(time.Second)))
 	}
 	x.Explore()
+	if sc.MustSee != "" && x.Capped == "" && x.HarnessErr == "" && *nshards == 1 {
+		seen := false
+		for o := range x.Outcomes {
+			if strings.Contains(o, sc.MustSee) {
+				seen = true
+			}
+		}
+		if !seen {
+			x.Viols = append(x.Viols, &vsched.Violation{Key: sc.Name + ":never-observed:" + sc.MustSee,
+				Msg: "no explored schedule showed the required observation " + sc.MustSee})
+		}
+	}
 	res := &Result{Prop: sc.Prop, Scenario: sc.Name, Desc: sc.Desc, Bound: *bound, FreeBound: *fbound, Shard: *shard, NShards: *nshards,
 		Execs: x.Execs, Transitions: x.Transitions, States: len(x.States), MaxPoints: x.MaxPoints,
 		Outcomes: x.Outcomes, Capped: x.Capped, HarnessErr: x.HarnessErr, Violations: x.Viols,
